@@ -458,6 +458,12 @@ def two_linkers(ctx: Ctx, fixes: dict):
     b = su.records(f.linker.inference.predict())
     diff = X.rows_diff(a, b)
     f.close()
+    # what the model's shared entry predicts B returns: the predictions over A's input (B reads A's cached
+    # __splink__df_concat_with_tf), not anything else.  Any other difference is a different defect.
+    g = X.World("duckdb", version=0, table="inp", settings=wb.model_json())
+    stale = su.records(g.linker.inference.predict())
+    g.close()
+    as_model_predicts = X.rows_diff(a, stale) is None
     wa.close()
     # model: SecondLinker keeps cache and database, switches inputs
     term = (X.HEADER + "\nEval vm_compute in (let s0 := " + X.coq_init("inp", 0, X.TF_COLS, 0, fixes) + " in "
@@ -477,8 +483,10 @@ def two_linkers(ctx: Ctx, fixes: dict):
         ctx.violation("a second Linker on the same DatabaseAPI reads the first linker's cached __splink__df_concat_with_tf",
                       {"case": ["Linker A(inp): predict", "Linker B(inp_b, same db_api): predict"], "implementation": diff,
                        "specification": "B.predict() equals a fresh linker over inp_b"},
-                      {"scenario": "two_linkers_one_db_api"})
-    ctx.expect_known("KF-C07-two-linkers-one-db-api", diff is not None, "named cache entries are no longer shared")
+                      {"scenario": "two_linkers_one_db_api" if as_model_predicts else "two_linkers_one_db_api_unpredicted_output",
+                       "second_linker_output": "equals_prediction_over_first_linkers_input" if as_model_predicts else "other",
+                       "shared_entry": "__splink__df_concat_with_tf"})
+    ctx.expect_known("KF-C07-two-linkers-one-db-api", diff is not None and as_model_predicts, "named cache entries are no longer shared")
 
 
 def new_api_same_database(ctx: Ctx):
@@ -621,9 +629,9 @@ def run(ctx: Ctx):
         "prediction_errors_from_labels_column/_table, estimate_m_from_label_column, estimate_m_from_pairwise_labels, unlinkables, "
         "profile_columns, completeness_chart, blocking-analysis functions, multi-threshold clustering, single best links, "
         "compute_graph_metrics, invalidate_cache and input change + invalidate_cache on "
-        "DuckDB and SQLite, plus all histories of length <= 3 (thorough; <= 2 sampled 45% quick) over a 13-letter alphabet; 30% of the random histories run in a link_and_dedupe world with two input tables; every random history ends with a second table-returning probe operation compared with the fresh linker; "
+        "DuckDB and SQLite (27 operation kinds), plus all histories of length <= 2 over a 13-letter alphabet and of length 3 over its first 11 letters (thorough; quick: length 1 and a seeded 45% of length 2); 30% of the random histories run in a link_and_dedupe world with two input tables; every random history ends with a second table-returning probe operation compared with the fresh linker; "
         "a history is non-trivial when it has >= 2 kinds of operation and at least one cache hit; distinct by "
-        "(backend, history). Realtime: sequences of compare_records calls over 3 settings x flag x cache mode.")
+        "(backend, history). Realtime: sequences of compare_records calls over 12 settings models (6 configure() variants x 2 bases) passed as SettingsCreator object / plain dict / dict of creators / file name (str, Path), both flags, both cache modes, 4 records; object creation, mutation, collection with id() reuse; file rewritten between calls and two DatabaseAPIs of different dialects (oracle only).")
     ctx.trusted += [
         "modelled, not verified: sha256(sql + uid)[:9] is collision free on the tables of one DatabaseAPI (Section hypothesis hash_inj)",
         "modelled: the SQL text of a pipeline is determined by templated name, model parameters, and the physical names it reads",
